@@ -581,6 +581,50 @@ static std::string op_yaw(const std::vector<std::string>& w)
     return out;
 }
 
+// light <mode f|h> <hex> <queries>: c<t> colour, p<t> pyro mask, s<t> seek; t in decimal ms
+static std::string op_light(bool hist, const std::string& hexprog, const std::string& queries)
+{
+    std::vector<uint8_t> b = unhex(hexprog);
+    Guarded g(b);
+    sb_light_program_t prog;
+    sb_error_t e = sb_light_program_init_from_buffer(&prog, g.ptr, g.n);
+    if (e != SB_SUCCESS) {
+        return "init:" + code(e);
+    }
+    sb_light_player_t hp;
+    sb_light_player_init(&hp, &prog);
+    std::string out;
+    for (const std::string& q : csv(queries)) {
+        char kind = q[0];
+        unsigned long t = strtoul(q.c_str() + 1, 0, 10);
+        sb_light_player_t fp;
+        sb_light_player_t* pl = &hp;
+        if (!hist) {
+            sb_light_player_init(&fp, &prog);
+            pl = &fp;
+        }
+        if (!out.empty()) {
+            out += " ";
+        }
+        if (kind == 'c') {
+            sb_rgb_color_t c = sb_light_player_get_color_at(pl, t);
+            out += "c:" + S(c.red) + "," + S(c.green) + "," + S(c.blue);
+        } else if (kind == 'p') {
+            out += "p:" + S(sb_light_player_get_pyro_channels_at(pl, t));
+        } else {
+            unsigned long next = 12345;
+            sb_bool_t ended = sb_light_player_seek(pl, t, &next);
+            out += "s:" + S(ended ? 1 : 0) + "," + U(next);
+        }
+        if (!hist) {
+            sb_light_player_destroy(&fp);
+        }
+    }
+    sb_light_player_destroy(&hp);
+    sb_light_program_destroy(&prog);
+    return out;
+}
+
 static std::string op_crc(const std::vector<std::string>& w)
 {
     // crc <init> <hex> <split points, csv or ->: successive calls on the pieces
@@ -626,6 +670,12 @@ static std::string run_case(const std::vector<std::string>& w)
     }
     if (op == "file") {
         return op_file(w);
+    }
+    if (op == "light") {
+        return op_light(w[1] == "h", w[2], w[3]);
+    }
+    if (op == "lightspec") {
+        return op_light(false, w[1], w[2]);
     }
     if (op == "yaw") {
         return op_yaw(w);
